@@ -391,6 +391,16 @@ func c04Case(c *Ctx, batchRoute bool) error {
 				fn = "scriptTo"
 				args = w.SignedArgs("tt", fn, acc, strconv.FormatUint(it.nonce, 10), bw.senders[it.to].AddrString(), script)
 			} else {
+				// a third of the tasks whose body reads nothing call the same body as a method executed without batching
+				// (NBTx, no result value): as a task it is executed - and reported - like any other
+				hasGet := false
+				for _, st := range it.body {
+					hasGet = hasGet || st.Op == "get"
+				}
+				if !hasGet && c.Rng.Intn(3) == 0 {
+					fn = "nbScript"
+					c.Count("task_of_nonbatched_method")
+				}
 				args = w.SignedArgs("tt", fn, acc, strconv.FormatUint(it.nonce, 10), script)
 			}
 			tasks = append(tasks, &fpb.Task{Id: w.Peer.NextTxID(), Method: fn, Args: args})
